@@ -139,9 +139,9 @@ def archStep (H : Hashes) (fs : Bytes → Bytes) (c : Content) : (Member × Byte
 
 /-- MtreeEntry.WriteTo -/
 def MtreeEntry.render (e : MtreeEntry) : Bytes :=
-  b!"./" ++ e.dst ++ b!" time=" ++ intToDec e.time ++ b!".0 mode=" ++
+  b!"./" ++ mtreeEsc e.dst ++ b!" time=" ++ intToDec e.time ++ b!".0 mode=" ++
   (if e.kind == tDir then toOct e.mode ++ b!" type=dir\n"
-   else if e.kind == tSym then toOct e.mode ++ b!" type=link link=" ++ e.link ++ [nl]
+   else if e.kind == tSym then toOct e.mode ++ b!" type=link link=" ++ mtreeEsc e.link ++ [nl]
    else toOct e.mode ++ b!" size=" ++ natToDec e.size ++ b!" type=file md5digest=" ++ hexOf e.md5
         ++ b!" sha256digest=" ++ hexOf e.sha256 ++ [nl])
 
